@@ -52,7 +52,12 @@ type c08Harness struct {
 	// "one-session-per-id": every thread opens the session "xid" of repository r at offset 0 and writes one
 	// byte through its own handle. There is one session: exactly one of those writes lands, and the
 	// session then holds exactly that byte.
-	Oracle string `json:"oracle,omitempty"`
+	// "one-client-writer": the threads write through one shared ociclient writer value (the prologue's
+	// session, opened over HTTP against a registry whose minimum chunk size is MinChunk). The client
+	// serialises them: every write succeeds, and after Close the session holds the pieces, each whole,
+	// in one of the two orders.
+	Oracle   string `json:"oracle,omitempty"`
+	MinChunk int    `json:"registry_min_chunk,omitempty"`
 }
 
 func (h c08Harness) prop() string {
@@ -88,6 +93,48 @@ type c08Exec struct {
 	final    []Obs
 	hands    []ociregistry.BlobWriter
 	panicMsg string
+	spy      *idSpy
+}
+
+// idSpy notes the ID under which the backend opened its (one) upload session.
+type idSpy struct {
+	ociregistry.Interface
+	id       string
+	mu       sync.Mutex
+	accepted []byte
+}
+
+func (s *idSpy) PushBlobChunked(ctx context.Context, repo string, chunk int) (ociregistry.BlobWriter, error) {
+	w, err := s.Interface.PushBlobChunked(ctx, repo, chunk)
+	if err == nil {
+		s.id = w.ID()
+		return &spyWriter{BlobWriter: w, s: s}, nil
+	}
+	return w, err
+}
+
+func (s *idSpy) PushBlobChunkedResume(ctx context.Context, repo, id string, off int64, chunk int) (ociregistry.BlobWriter, error) {
+	w, err := s.Interface.PushBlobChunkedResume(ctx, repo, id, off, chunk)
+	if err == nil {
+		return &spyWriter{BlobWriter: w, s: s}, nil
+	}
+	return w, err
+}
+
+// spyWriter notes the bytes the backend accepted, in the order its Write calls returned.
+type spyWriter struct {
+	ociregistry.BlobWriter
+	s *idSpy
+}
+
+func (w *spyWriter) Write(p []byte) (int, error) {
+	n, err := w.BlobWriter.Write(p)
+	if err == nil {
+		w.s.mu.Lock()
+		w.s.accepted = append(w.s.accepted, p[:n]...)
+		w.s.mu.Unlock()
+	}
+	return n, err
 }
 
 func (e *c08Exec) body(s *vsched.Sched) {
@@ -97,7 +144,15 @@ func (e *c08Exec) body(s *vsched.Sched) {
 	if e.h.HTTP {
 		e.reg, _ = httpStack(e.mem, nil, nil)
 	}
+	if e.h.Oracle == "one-client-writer" {
+		// the registry's writers report a tiny minimum chunk size, so that a write of a few bytes is a request
+		e.spy = &idSpy{Interface: smallChunk{e.mem, e.h.MinChunk}}
+		e.reg, _ = httpStack(e.spy, nil, nil)
+	}
 	pro := &regSys{u: e.u, reg: e.reg, model: NewModel(e.h.Immutable), ctx: context.Background()}
+	if e.h.Oracle == "one-client-writer" {
+		pro.hint = 1 // the client then works with the registry's minimum
+	}
 	pro.model.HEADResolves = e.h.HTTP
 	for _, op := range e.h.Prologue {
 		out := pro.exec(op)
@@ -164,7 +219,47 @@ func (e *c08Exec) verdict() (bool, string) {
 	if e.h.Oracle == "one-session-per-id" {
 		return e.oneSessionPerID()
 	}
+	if e.h.Oracle == "one-client-writer" {
+		return e.oneClientWriter()
+	}
 	return e.linearizable()
+}
+
+func (e *c08Exec) oneClientWriter() (bool, string) {
+	var pieces, texts []string
+	for _, t := range e.events {
+		for _, ev := range t {
+			texts = append(texts, fmt.Sprintf("T%d %s -> ok=%v %s %s", ev.Thread, ev.Op.String(), ev.Out.OK, ev.Out.Code, ev.Out.Err))
+			if !ev.Out.OK {
+				return false, "a write through the shared writer failed: " + strings.Join(texts, "; ")
+			}
+			pieces = append(pieces, ev.Op.Op.Piece)
+		}
+	}
+	total := strings.Join(pieces, "")
+	if got := e.hands[0].Size(); got != int64(len(total)) {
+		return false, fmt.Sprintf("the writer reports size %d after writes of %d bytes: %s", got, len(total), strings.Join(texts, "; "))
+	}
+	if err := e.hands[0].Close(); err != nil {
+		return false, "Close of the shared writer: " + err.Error() + ": " + strings.Join(texts, "; ")
+	}
+	ctx := context.Background()
+	w, err := e.mem.PushBlobChunkedResume(ctx, "r", e.spy.id, -1, 0)
+	if err != nil {
+		return false, "the backend session cannot be resumed afterwards: " + err.Error()
+	}
+	if w.Size() != int64(len(total)) {
+		return false, fmt.Sprintf("the backend session holds %d bytes after successful writes of %d: %s", w.Size(), len(total), strings.Join(texts, "; "))
+	}
+	// the content is one of the two orders of the whole pieces
+	got := string(e.spy.accepted)
+	if got != pieces[0]+pieces[1] && got != pieces[1]+pieces[0] {
+		return false, fmt.Sprintf("the backend accepted %q, which is neither %q nor %q: %s", got, pieces[0]+pieces[1], pieces[1]+pieces[0], strings.Join(texts, "; "))
+	}
+	if _, err := w.Commit(sha256Digest([]byte(got))); err != nil {
+		return false, fmt.Sprintf("the backend accepted %q but the session does not commit as that: %v", got, err)
+	}
+	return true, ""
 }
 
 func (e *c08Exec) oneSessionPerID() (bool, string) {
@@ -342,6 +437,13 @@ func c08Directed(u *universe) []c08Harness {
 		// the same caller-chosen upload ID opened for the first time by several threads at once
 		c08Harness{Name: "H11-first-use-of-one-upload-id-by-two-threads", Prologue: c08Seed, Oracle: "one-session-per-id", Threads: [][]cOp{startX(), startX()}},
 	)
+	for _, k := range []int{1, 3} {
+		hs = append(hs, c08Harness{Name: fmt.Sprintf("H12-two-writes-through-one-client-writer/min-chunk-%d", k), Oracle: "one-client-writer", MinChunk: k,
+			Prologue: []Op{{K: "Start", Repo: "r"}}, Threads: [][]cOp{
+				{{Op: op(Op{K: "Write", H: 0, Piece: "abcd"})}},
+				{{Op: op(Op{K: "Write", H: 0, Piece: "e"})}},
+			}})
+	}
 	// the first three again through ociclient -> ociserver (requests are served concurrently over one registry)
 	for _, h := range []c08Harness{hs[0], hs[3], hs[6]} {
 		h.Name += "/http"
